@@ -826,7 +826,9 @@ func (u *Unmarshaler) processNamedFieldWithoutValue(fieldType reflect.Type, valu
 	case reflect.Array, reflect.Map, reflect.Slice:
 		if !opts.optional() {
 			return u.processFieldNotFromString(fieldType, value, valueWithParent{
-				value: emptyMap,
+				// 每次用新的空字典：共享的包级字典会被原样放进 map[string]any 字段，
+				// 调用方往里写的内容就会出现在以后的解组结果里
+				value: map[string]any{},
 			}, opts, fullName)
 		}
 	case reflect.Struct:
@@ -841,7 +843,9 @@ func (u *Unmarshaler) processNamedFieldWithoutValue(fieldType reflect.Type, valu
 			}
 
 			return u.processFieldNotFromString(fieldType, value, valueWithParent{
-				value: emptyMap,
+				// 每次用新的空字典：共享的包级字典会被原样放进 map[string]any 字段，
+				// 调用方往里写的内容就会出现在以后的解组结果里
+				value: map[string]any{},
 			}, opts, fullName)
 		}
 	default:
